@@ -172,8 +172,9 @@ class Gen:
     def iffeature(self, p=0.3):
         def mk():
             kids = []
-            if self.cls == "F55" and self.rng.random() < 0.7:
+            if self.cls == "F55" and self.rng.random() < 0.7 and self.owners[-1]["site"] in (None, b"if-feature"):
                 self.risk_used = True
+                self.owners[-1]["site"] = b"if-feature"
                 kids = [(b"g:e1", self.spell(self.text()), [])]
             if self.cls == "F51" and self.rng.random() < 0.4:
                 self.risk_used = True
@@ -220,7 +221,7 @@ class Gen:
         rng = self.rng
 
         def mk():
-            r = rng.randrange(11)
+            r = rng.randrange(11) if not (self.cls == "F59" and rng.random() < 0.5) else 2
             if r == 0:
                 return (b"type", rng.choice([b"int8", b"int16", b"int32", b"int64", b"uint8", b"uint16", b"uint32", b"uint64"]),
                         self.maybe(0.6, lambda: self.restr(b"range", rng.choice([b"\"1..10 | 20..30\"", b"\"min..5\"", b"1..max", b"\"1 .. 10\""]))))
